@@ -716,6 +716,19 @@ func (r *run) checkTeardown(m *Model) {
 			return
 		}
 	}
+	if r.sc.Profile == "teardown" && !h.Script.Knobs.CloseServer && len(h.LeftAfterClients) == 0 && h.SessionsLeft >= 0 && (r.m == nil || len(r.m.racedIDs()) == 0) {
+		// every connection has ended: the store holds exactly the sessions
+		// whose (only) connection was accepted with CleanSession=0
+		want := 0
+		for _, c := range h.Conns {
+			if accepted(c) && len(c.Up) > 0 && c.Up[0].P.Type == refmqtt.CONNECT && !c.Up[0].P.CleanSession {
+				want++
+			}
+		}
+		if h.SessionsLeft != want {
+			r.viol("C16", "clean-session-discarded", fmt.Sprintf("C16/sessions-left/got%d-want%d", h.SessionsLeft, want), "every connection has ended and its teardown has finished; the session store holds %d session(s), but %d connection(s) were accepted with CleanSession=0 (a clean session must be discarded with its connection, a persistent one kept)", h.SessionsLeft, want)
+		}
+	}
 	if len(h.LeftSubs) > 0 && len(h.LeftAfterClients) == 0 && len(h.Script.Inproc) == 0 {
 		tag := ""
 		for _, l := range h.LeftSubs {
